@@ -210,4 +210,36 @@ theorem unshuffleList_perm {α : Type} (h : Hasher) (rounds : Nat) (a : Array α
   exact perm_of_index_bijection a _ (permUp h a.size rounds) (permDown h a.size rounds) s
     (permUp_lt hn rounds) (permDown_lt hn rounds) (permDown_permUp hn rounds) (permUp_permDown hn rounds) g
 
+/-! ## non-vacuity: the hypotheses are satisfiable and the statements have content at `n = 257`
+(one element beyond a 256-block), with the pivot at either end -/
+
+/-- a concrete hash source: constant raw pivot, every bit of every block set (every pair swaps) -/
+def allOnes (pivot : Nat) : Hasher where
+  pivotRaw _ := pivot
+  blockOf _ _ := ⟨Array.replicate 32 255⟩
+
+/-- a hash source whose pivots and blocks vary with round and window -/
+def varying (pivot : Nat) : Hasher where
+  pivotRaw r := pivot + r
+  blockOf r w := ⟨Array.replicate 32 (UInt8.ofNat (0x5a + r + w))⟩
+
+-- pivot 0 and pivot n−1, per index
+example : permuteIndex (allOnes 0) 1 5 257 = .ok 252 := by decide +kernel
+example : permuteIndex (allOnes 256) 1 5 257 = .ok 251 := by decide +kernel
+example : permuteIndex (varying 256) 3 256 257 = .ok 0 ∧ unpermuteIndex (varying 256) 3 0 257 = .ok 256 := by
+  decide +kernel
+-- pivot 0 and pivot n−1, whole list: position k of the un-shuffled list holds L[permute k]
+example : (unshuffleList (allOnes 0) 1 (Array.range 257))[5]? = some 252 := by decide +kernel
+example : (unshuffleList (allOnes 256) 1 (Array.range 257))[5]? = some 251 := by decide +kernel
+example : (unshuffleList (varying 256) 3 (Array.range 257))[256]? = some 0 ∧
+    (shuffleList (varying 256) 3 (Array.range 257))[0]? = some 256 := by decide +kernel
+example : (257 : Nat) ≤ 2 ^ 40 ∧ (257 : Nat) ≤ 2 ^ 63 := by decide
+
+/-- the bound `n ≤ 2^63` of the per-index theorems cannot be dropped: for `listSize = 2^64 − 1` the
+wrapping sum `pivot + (listSize − index)` sends two different indices to the same place. (Outside the
+specification's domain — the pyspec's checked `uint64` addition rejects such inputs — and beyond any
+slice length; recorded here, not a finding.) -/
+example : permuteIndex (allOnes (2 ^ 64 - 2)) 1 (2 ^ 64 - 2) (2 ^ 64 - 1) = .ok 0 ∧
+    permuteIndex (allOnes (2 ^ 64 - 2)) 1 (2 ^ 64 - 3) (2 ^ 64 - 1) = .ok 0 := by decide +kernel
+
 end Zrnt.Proofs.C06
